@@ -1,9 +1,454 @@
-//! STUB component for pptt -- to be written
+//! component 16: PPTT.  Case vocabulary documented in coq/theories/Spec/PpttS.v.
 use crate::sx::*;
+use crate::tcommon::*;
 use crate::Emit;
+use acpi_tables::pptt::*;
 
-pub fn run(_case: &Sx, _out: &mut Vec<Ev>) {
-    panic!("harness: component pptt not implemented")
+#[derive(Clone, Copy)]
+enum H {
+    P(ProcessorHandle),
+    C(CacheHandle),
 }
 
-pub fn gen(_tier: &str, _rng: &mut Rng, _emit: &mut Emit) {}
+/// the handles only expose their value through Debug: "ProcessorHandle(36)"
+fn debug_value(s: String) -> u64 {
+    let digits: String = s.chars().filter(|c| c.is_ascii_digit()).collect();
+    digits.parse().expect("harness: handle without a number")
+}
+
+fn value(h: &H) -> u64 {
+    match h {
+        H::P(p) => debug_value(format!("{:?}", p)),
+        H::C(c) => debug_value(format!("{:?}", c)),
+    }
+}
+
+fn href<'a>(hs: &'a [Option<H>], x: &Sx) -> &'a H {
+    let r = x.list();
+    if r.len() != 2 || r[0].num() != 104 {
+        panic!("harness: bad handle reference {}", x.show());
+    }
+    match hs.get(r[1].num() as usize) {
+        Some(Some(h)) => h,
+        _ => panic!("harness: reference to an operation that returned no handle: {}", x.show()),
+    }
+}
+
+fn proc_ref(hs: &[Option<H>], x: &Sx) -> ProcessorHandle {
+    match href(hs, x) {
+        H::P(p) => *p,
+        _ => panic!("harness: expected a processor handle: {}", x.show()),
+    }
+}
+
+fn cache_ref(hs: &[Option<H>], x: &Sx) -> CacheHandle {
+    match href(hs, x) {
+        H::C(c) => *c,
+        _ => panic!("harness: expected a cache handle: {}", x.show()),
+    }
+}
+
+pub fn run(case: &Sx, out: &mut Vec<Ev>) {
+    let c = case.list();
+    let ctor = c[0].list();
+    let (oem, tbl, rev) = hdr_args(ctor);
+    let mut t = PPTT::new(oem, tbl, rev);
+    let mut hs: Vec<Option<H>> = Vec::new();
+    for op in &c[1..] {
+        if let Sx::A(_) = op {
+            out.push(image(&t));
+            continue;
+        }
+        let o = op.list();
+        let h = match o[0].num() {
+            1 => {
+                let uid = o[2].num() as u32;
+                let mut node = match &o[1] {
+                    Sx::L(v) if v.is_empty() => ProcessorNode::new(None, uid),
+                    Sx::L(_) => {
+                        let p = proc_ref(&hs, &o[1]);
+                        ProcessorNode::new(Some(&p), uid)
+                    }
+                    Sx::A(n) => {
+                        let mut nd = ProcessorNode::new(None, uid);
+                        nd.parent = *n as u32;
+                        nd
+                    }
+                };
+                for b in o[3].list() {
+                    let b = b.list();
+                    node = match b[0].num() {
+                        1 => node.physical(),
+                        2 => node.valid(),
+                        3 => node.thread(),
+                        4 => node.leaf(),
+                        5 => node.identical(),
+                        6 => node.add_cache(&cache_ref(&hs, &b[1])),
+                        7 => {
+                            node.flags = b[1].num() as u32;
+                            node
+                        }
+                        8 => {
+                            node.parent = match &b[1] {
+                                Sx::A(n) => *n as u32,
+                                x => value(href(&hs, x)) as u32,
+                            };
+                            node
+                        }
+                        9 => {
+                            node.acpi_processor_id = b[1].num() as u32;
+                            node
+                        }
+                        _ => panic!("harness: bad processor builder"),
+                    };
+                }
+                H::P(t.add_processor(node))
+            }
+            2 => {
+                let mut b = CacheNodeBuilder::default();
+                for s in o[1].list() {
+                    let s = s.list();
+                    b = match s[0].num() {
+                        1 => b.size(s[1].num() as u32),
+                        2 => b.sets(s[1].num() as u32),
+                        3 => b.associativity(s[1].num() as u8),
+                        4 => b.allocation_type(match s[1].num() {
+                            0 => AllocationType::Read,
+                            1 => AllocationType::Write,
+                            2 => AllocationType::Both,
+                            _ => panic!("harness: bad AllocationType"),
+                        }),
+                        5 => b.cache_type(match s[1].num() {
+                            0 => CacheType::Data,
+                            1 => CacheType::Instruction,
+                            2 => CacheType::Unified,
+                            _ => panic!("harness: bad CacheType"),
+                        }),
+                        6 => b.write_policy(match s[1].num() {
+                            0 => WritePolicy::Writeback,
+                            1 => WritePolicy::Writethrough,
+                            _ => panic!("harness: bad WritePolicy"),
+                        }),
+                        7 => b.line_size(s[1].num() as u16),
+                        8 => b.id(s[1].num() as u32),
+                        9 => b.next_level(&cache_ref(&hs, &s[1])),
+                        _ => panic!("harness: bad cache setter"),
+                    };
+                }
+                H::C(t.add_cache(b.to_node()))
+            }
+            _ => panic!("harness: bad pptt op"),
+        };
+        out.push(Ev::Num(value(&h)));
+        hs.push(Some(h));
+    }
+}
+
+fn rand_ctor(rng: &mut Rng) -> Sx {
+    l(rand_hdr(rng))
+}
+
+fn h(k: usize) -> Sx {
+    l(vec![a(104), a(k as u64)])
+}
+
+/// indices of the earlier operations of a kind (1 processor, 2 cache)
+fn earlier(prev: &[u64], kind: u64) -> Vec<usize> {
+    prev.iter().enumerate().filter(|(_, k)| **k == kind).map(|(i, _)| i).collect()
+}
+
+fn flag_builder(b: u64) -> Sx {
+    l(vec![a(b)])
+}
+
+fn cache_setter(rng: &mut Rng, id: u64, prev: &[u64]) -> Option<Sx> {
+    Some(match id {
+        1 | 2 | 8 => l(vec![a(id), a(rng.val(32))]),
+        3 => l(vec![a(3), a(rng.val(8))]),
+        4 | 5 => l(vec![a(id), a(rng.below(3))]),
+        6 => l(vec![a(6), a(rng.below(2))]),
+        7 => l(vec![a(7), a(rng.val(16))]),
+        _ => {
+            let cs = earlier(prev, 2);
+            if cs.is_empty() {
+                return None;
+            }
+            l(vec![a(9), h(*rng.pick(&cs))])
+        }
+    })
+}
+
+fn processor(rng: &mut Rng, prev: &[u64], nres: usize, extra: Vec<Sx>) -> Sx {
+    let ps = earlier(prev, 1);
+    let cs = earlier(prev, 2);
+    let parent = match rng.below(4) {
+        0 => l(vec![]),
+        1 => a(rng.val(32)),
+        _ if !ps.is_empty() => h(*rng.pick(&ps)),
+        _ => l(vec![]),
+    };
+    let mut bs = extra;
+    if !cs.is_empty() {
+        for _ in 0..nres {
+            let pos = rng.below(bs.len() as u64 + 1) as usize;
+            bs.insert(pos, l(vec![a(6), h(*rng.pick(&cs))]));
+        }
+    }
+    l(vec![a(1), parent, a(rng.val(32)), l(bs)])
+}
+
+fn rand_proc_builders(rng: &mut Rng, prev: &[u64], max: u64) -> Vec<Sx> {
+    let ps = earlier(prev, 1);
+    let k = rng.below(max + 1);
+    (0..k)
+        .map(|_| match rng.below(9) {
+            0..=4 => flag_builder(1 + rng.below(5)),
+            5 => l(vec![a(7), a(rng.val(32))]),
+            6 => l(vec![a(9), a(rng.val(32))]),
+            7 if !ps.is_empty() && rng.chance(1, 2) => l(vec![a(8), h(*rng.pick(&ps))]),
+            7 => l(vec![a(8), a(rng.val(32))]),
+            _ => flag_builder(1 + rng.below(5)),
+        })
+        .collect()
+}
+
+fn cache(rng: &mut Rng, prev: &[u64], ids: &[u64]) -> Sx {
+    l(vec![a(2), l(ids.iter().filter_map(|id| cache_setter(rng, *id, prev)).collect())])
+}
+
+pub fn rand_op(rng: &mut Rng, kind: u64, prev: &[u64]) -> Sx {
+    match kind {
+        1 => {
+            let bs = rand_proc_builders(rng, prev, 7);
+            let nres = match rng.below(4) {
+                0 => 0,
+                1 => rng.below(3),
+                _ => rng.below(9),
+            } as usize;
+            processor(rng, prev, nres, bs)
+        }
+        _ => {
+            let k = rng.below(12);
+            let ids: Vec<u64> = (0..k).map(|_| rng.range(1, 9)).collect();
+            cache(rng, prev, &ids)
+        }
+    }
+}
+
+fn shuffle<T>(rng: &mut Rng, v: &mut Vec<T>) {
+    for k in (1..v.len()).rev() {
+        let j = rng.below(k as u64 + 1) as usize;
+        v.swap(k, j);
+    }
+}
+
+/// all sequences of length <= n over the items
+fn sequences(items: &[u64], n: usize) -> Vec<Vec<u64>> {
+    let mut res: Vec<Vec<u64>> = vec![vec![]];
+    let mut last: Vec<Vec<u64>> = vec![vec![]];
+    for _ in 0..n {
+        let mut next = Vec::new();
+        for s in &last {
+            for it in items {
+                let mut t = s.clone();
+                t.push(*it);
+                next.push(t);
+            }
+        }
+        res.extend(next.iter().cloned());
+        last = next;
+    }
+    res
+}
+
+/// a random history of `len` operations with references to earlier handles
+fn rand_history(rng: &mut Rng, len: u64) -> Vec<Sx> {
+    let mut prev: Vec<u64> = Vec::new();
+    let mut ops = Vec::new();
+    for _ in 0..len {
+        let k = 1 + rng.below(2);
+        ops.push(rand_op(rng, k, &prev));
+        prev.push(k);
+    }
+    ops
+}
+
+pub fn gen(tier: &str, rng: &mut Rng, emit: &mut Emit) {
+    let thorough = tier == "thorough";
+    for _ in 0..4 {
+        let c = rand_ctor(rng);
+        emit.case(16, history(rng, c, vec![]));
+    }
+    // each kind alone, all ordered pairs (the second may refer to the first)
+    for k in [1u64, 2] {
+        for _ in 0..10 {
+            let c = rand_ctor(rng);
+            let op = rand_op(rng, k, &[]);
+            emit.case(16, history(rng, c, vec![op]));
+        }
+    }
+    for k1 in [1u64, 2] {
+        for k2 in [1u64, 2] {
+            for _ in 0..6 {
+                let c = rand_ctor(rng);
+                let o1 = rand_op(rng, k1, &[]);
+                let o2 = rand_op(rng, k2, &[k1]);
+                emit.case(16, history(rng, c, vec![o1, o2]));
+            }
+        }
+    }
+    // all interleavings of the two node kinds for histories of length <= 4
+    for seq in sequences(&[1, 2], 4) {
+        let c = rand_ctor(rng);
+        let mut prev: Vec<u64> = Vec::new();
+        let mut ops = Vec::new();
+        for k in seq {
+            ops.push(rand_op(rng, k, &prev));
+            prev.push(k);
+        }
+        emit.case(16, history(rng, c, ops));
+    }
+    // homogeneous runs: 300 smallest entries of each kind; a run crossing 65535 -> 65536 bytes
+    for k in [1u64, 2] {
+        let c = rand_ctor(rng);
+        let ops = (0..300)
+            .map(|_| if k == 1 { l(vec![a(1), l(vec![]), a(rng.val(32)), l(vec![])]) } else { l(vec![a(2), l(vec![])]) })
+            .collect();
+        emit.case(16, history(rng, c, ops));
+    }
+    // (the C05 oracle re-derives the layout before every earlier handle at every observation: cubic in the history
+    // length, so the runs crossing 65536 bytes and the 300-operation random histories are left to the other properties)
+    if true {
+        let c = rand_ctor(rng);
+        let mut prev: Vec<u64> = Vec::new();
+        let mut ops = Vec::new();
+        for _ in 0..2345 {
+            // 2345 * 28 bytes > 65536
+            ops.push(cache(rng, &prev, &[1, 9, 4]));
+            prev.push(2);
+        }
+        emit.case(16, history(rng, c, ops));
+    }
+    if true {
+        // 240 * (28 + 252) bytes > 65536: a cache node followed by a processor with 58 references to it
+        let c = rand_ctor(rng);
+        let mut ops = Vec::new();
+        for k in 0..240usize {
+            ops.push(l(vec![a(2), l(vec![l(vec![a(8), a(rng.val(32))])])]));
+            let refs = (0..58).map(|_| l(vec![a(6), h(2 * k)])).collect();
+            let parent = if k == 0 { l(vec![]) } else { h(2 * k - 1) };
+            ops.push(l(vec![a(1), parent, a(rng.val(32)), l(refs)]));
+        }
+        emit.case(16, history(rng, c, ops));
+    }
+    // processor flags: every sequence of length <= 3 over the 5 builders, every subset in a random order, doubled subsets
+    for seq in sequences(&[1, 2, 3, 4, 5], 3) {
+        let c = rand_ctor(rng);
+        let op = l(vec![a(1), l(vec![]), a(rng.val(32)), l(seq.iter().map(|b| flag_builder(*b)).collect())]);
+        emit.case(16, history(rng, c, vec![op]));
+    }
+    for mask in 0..32u64 {
+        for rep in 0..3 {
+            let c = rand_ctor(rng);
+            let mut bs: Vec<Sx> = (0..5).filter(|b| mask >> b & 1 == 1).map(|b| flag_builder(b + 1)).collect();
+            if rep == 2 {
+                let again = bs.clone();
+                bs.extend(again);
+            }
+            if rep > 0 {
+                shuffle(rng, &mut bs);
+            }
+            let op = l(vec![a(1), l(vec![]), a(rng.val(32)), l(bs)]);
+            emit.case(16, history(rng, c, vec![op]));
+        }
+    }
+    // pub fields mixed with the builders, parents by handle / raw number
+    for _ in 0..60 {
+        let c = rand_ctor(rng);
+        let o1 = rand_op(rng, 1, &[]);
+        let o2 = rand_op(rng, 2, &[1]);
+        let bs = rand_proc_builders(rng, &[1, 2], 10);
+        let nres = rng.below(4) as usize;
+        let o3 = processor(rng, &[1, 2], nres, bs);
+        emit.case(16, history(rng, c, vec![o1, o2, o3]));
+    }
+    // cache setters: every subset of the 9 setters in a random order; every sequence of length <= 2; repetitions
+    for mask in 0..512u64 {
+        let c = rand_ctor(rng);
+        let mut ids: Vec<u64> = (1..=9).filter(|b| mask >> (b - 1) & 1 == 1).collect();
+        shuffle(rng, &mut ids);
+        let first = cache(rng, &[], &[8]);
+        let op = cache(rng, &[2], &ids);
+        emit.case(16, history(rng, c, vec![first, op]));
+    }
+    for seq in sequences(&[1, 2, 3, 4, 5, 6, 7, 8, 9], 2) {
+        let c = rand_ctor(rng);
+        let first = cache(rng, &[], &[1]);
+        let op = cache(rng, &[2], &seq);
+        emit.case(16, history(rng, c, vec![first, op]));
+    }
+    for _ in 0..(if thorough { 600 } else { 80 }) {
+        let c = rand_ctor(rng);
+        let k = rng.range(2, 14);
+        let ids: Vec<u64> = (0..k).map(|_| rng.range(1, 9)).collect();
+        let first = cache(rng, &[], &[7]);
+        let second = cache(rng, &[2], &[2, 9]);
+        let op = cache(rng, &[2, 2], &ids);
+        emit.case(16, history(rng, c, vec![first, second, op]));
+    }
+    // every enum value of the three attribute setters, alone and combined
+    for al in 0..3u64 {
+        for ct in 0..3u64 {
+            for wp in 0..2u64 {
+                let c = rand_ctor(rng);
+                let mut st = vec![l(vec![a(4), a(al)]), l(vec![a(5), a(ct)]), l(vec![a(6), a(wp)])];
+                shuffle(rng, &mut st);
+                emit.case(16, history(rng, c, vec![l(vec![a(2), l(st)])]));
+            }
+        }
+    }
+    for id in [4u64, 5, 6] {
+        for e in 0..(if id == 6 { 2 } else { 3 }) {
+            let c = rand_ctor(rng);
+            emit.case(16, history(rng, c, vec![l(vec![a(2), l(vec![l(vec![a(id), a(e)])])])]));
+        }
+    }
+    // processors with 0..70 private resources (58 is the last count whose length fits the length byte)
+    for n in 0..=70usize {
+        let c = rand_ctor(rng);
+        let c1 = cache(rng, &[], &[1, 2]);
+        let c2 = cache(rng, &[2], &[9, 3]);
+        let bs = rand_proc_builders(rng, &[2, 2], 3);
+        let p = processor(rng, &[2, 2], n, bs);
+        emit.case(16, history(rng, c, vec![c1, c2, p]));
+    }
+    // random mixed histories with later nodes referring to earlier handles
+    let n = if thorough { 3000 } else { 200 };
+    for _ in 0..n {
+        let c = rand_ctor(rng);
+        let len = match rng.below(3) {
+            0 => rng.range(1, 6),
+            1 => rng.range(1, 24),
+            _ => rng.range(25, 120),
+        };
+        let ops = rand_history(rng, len);
+        emit.case(16, history(rng, c, ops));
+    }
+    for _ in 0..(if thorough { 20 } else { 3 }) {
+        let c = rand_ctor(rng);
+        let ops = rand_history(rng, 300);
+        emit.case(16, history(rng, c, ops));
+    }
+}
+
+/// C18: the processor node's length is a u8 field (20 + 4 * resources)
+#[allow(dead_code)]
+pub fn gen18(_tier: &str, rng: &mut Rng, emit: &mut Emit) {
+    for n in [57usize, 58, 59, 60, 61, 62, 63, 64, 65, 100, 122, 123, 128, 255, 256, 300] {
+        let c = rand_ctor(rng);
+        let c1 = cache(rng, &[], &[1, 2]);
+        let p = processor(rng, &[2], n, vec![flag_builder(1)]);
+        let after = cache(rng, &[2], &[9]);
+        emit.case(16, history(rng, c, vec![c1, p, after]));
+    }
+}
